@@ -208,6 +208,9 @@ func (c13) Gen(rng *rand.Rand, tier string, k int) *Case {
 		c.Mode = "from-repository"
 		c.Perm = rng.Perm(na)
 	}
+	if rng.Intn(5) == 0 {
+		c.Delay = 2 // number of consecutive runs on the same Backtest/report (field reused)
+	}
 	c.Policy = genPolicy(rng)
 	return c
 }
@@ -358,6 +361,17 @@ func (c13) Run(c *Case, st *Stats) []Violation {
 				bt.Names = append([]string{}, c.Names...)
 			}
 			runErr = bt.Run()
+			if runErr == nil && c.Delay == 2 {
+				// the same Backtest and report are run again (a scheduled re-run): everything said
+				// about a run holds for the second one as well
+				if rec != nil {
+					rec.mu.Lock()
+					rec.Events = nil
+					rec.mu.Unlock()
+				}
+				runErr = bt.Run()
+				st.Probes["second-run-on-the-same-backtest-and-report"]++
+			}
 			names = bt.Names
 		})
 	})
@@ -554,6 +568,8 @@ func (c13) Run(c *Case, st *Stats) []Violation {
 		st.Probes["data-reports-checked"]++
 	default:
 		best := map[string]float64{}
+		bestExact := map[string]float64{}
+		bestName := map[string]string{}
 		nAssets := 0
 		for _, n := range names {
 			if !present[n] {
@@ -598,6 +614,31 @@ func (c13) Run(c *Case, st *Stats) []Violation {
 				add("result-differs-from-direct-evaluation", regime, fmt.Sprintf("%s.html lists %v, direct evaluation gives %v", n, gotRows, want))
 				return vs
 			}
+			// the printed figures have two decimals; the ranking itself is about the outcomes. Where
+			// the strategy names are distinct the rows identify the strategies, so the exact outcomes
+			// of direct evaluation must be non-increasing down the page and the first row must be the
+			// exact maximum (outcomes closer than the printed precision are ranked too).
+			exact := map[string]float64{}
+			dupName := false
+			for i := range c.Subs {
+				_, o := lastOf(ref[fmt.Sprintf("%s|#%d", n, i)])
+				if _, dup := exact[strategies[i].Name()]; dup {
+					dupName = true
+				}
+				exact[strategies[i].Name()] = o
+			}
+			if !dupName {
+				for i := 1; i < len(rows); i++ {
+					a, b := exact[rows[i-1].Key], exact[rows[i].Key]
+					if b > a && !math.IsNaN(a) && !math.IsNaN(b) {
+						add("ranking-order", regime, fmt.Sprintf("%s.html lists %s (outcome %.10g) after %s (outcome %.10g)", n, rows[i].Key, b, rows[i-1].Key, a))
+						return vs
+					}
+				}
+				bestExact[n] = exact[rows[0].Key]
+				bestName[n] = rows[0].Key
+				st.Probes["rankings-checked-on-exact-outcomes"]++
+			}
 			best[n] = rows[0].Outcome
 			if c.Impl == "html-reports" {
 				for _, r := range rows {
@@ -626,6 +667,18 @@ func (c13) Run(c *Case, st *Stats) []Violation {
 			if i > 0 && r.Outcome > rows[i-1].Outcome {
 				add("ranking-order", regime, fmt.Sprintf("index.html lists %s (%.2f%%) after %s (%.2f%%)", r.Key, r.Outcome, rows[i-1].Key, rows[i-1].Outcome))
 				return vs
+			}
+			if bn, ok := bestName[r.Key]; ok && r.Second != bn {
+				add("best-entry-not-maximal", regime, fmt.Sprintf("index.html presents %q as the best strategy of %s, the first row of %s.html is %q", r.Second, r.Key, r.Key, bn))
+				return vs
+			}
+			if i > 0 {
+				a, okA := bestExact[rows[i-1].Key]
+				b, okB := bestExact[r.Key]
+				if okA && okB && b > a {
+					add("ranking-order", regime, fmt.Sprintf("index.html lists %s (best outcome %.10g) after %s (best outcome %.10g)", r.Key, b, rows[i-1].Key, a))
+					return vs
+				}
 			}
 		}
 		st.Probes["html-reports-checked"]++
